@@ -3,6 +3,7 @@ package checks
 import (
 	"fmt"
 	"net/netip"
+	"time"
 
 	"github.com/pion/ice/v4"
 	"github.com/pion/stun/v3"
@@ -116,7 +117,7 @@ func runC05(c *core.Ctx) {
 	}
 
 	// part 1
-	inj := &c05Injector{c: c, d: d, led: led, tb: tb, role: map[string]string{"A": "controlling", "B": "controlled"}, liteB: k.liteB}
+	inj := &c05Injector{c: c, d: d, led: led, tb: tb, role: map[string]string{"A": "controlling", "B": "controlled"}, liteB: k.liteB, ci: k.checkInterval}
 	sess := &c01Session{c: c, d: d, k: k, noOracles: true}
 	sess.hook = func(string) {
 		if c.Failed() {
@@ -155,6 +156,7 @@ type c05Injector struct {
 	// (the real conflict with the controlling peer that follows is part 2's subject).
 	liteB        bool
 	liteSwitched bool
+	ci           time.Duration
 }
 
 func (in *c05Injector) inject() {
@@ -179,6 +181,11 @@ func (in *c05Injector) inject() {
 		}
 		role = "controlled"
 		c.Probe("conflict-at-lite-receiver")
+		// let a check tick pass with no delivery, as the wire-reading loop below does for a full agent: what
+		// earlier deliveries changed (liveness, Disconnected -> Connected) is then visible before the snapshot
+		// and is not attributed to the conflicting request
+		d.S.Advance(in.ci)
+		d.S.Advance(in.ci)
 	} else {
 		n00 := in.led.Side[target.Name].SentReqs
 		for i := 0; i < 400 && in.led.Side[target.Name].SentReqs == n00; i++ {
